@@ -7,7 +7,7 @@
 From Coq Require Import Reals List Lia Lra Bool ZArith Floats.
 From Coquelicot Require Import Coquelicot.
 From ADV Require Import Base.Num C06.Model C06.Spec C06.ParamT C06.ProofsAlg C06.ProofsAna C06.ProofsLift
-                        C06.ProofsInst C06.ProofsCalc C06.ProofsGlue C06.ProofsVal C06.Corr.
+                        C06.ProofsInst C06.ProofsGJ2 C06.ProofsCalc C06.ProofsGlue C06.ProofsVal C06.Corr.
 Import ListNotations.
 Open Scope R_scope.
 
@@ -95,6 +95,19 @@ Theorem cholesky_2x2 : forall k o x, chol2_dom x ->
             forall q, holds k o (fun y => evalR y (nth q chol2_E (Cst 0))) x (nth q J (jconst 0)).
 Proof. exact chol2_jets. Qed.
 
+(* a routine with a PIVOT decision, all hypotheses discharged: matrixInverse (Gauss-Jordan) on an invertible
+   2 x 2 matrix [[x0 x1] [x2 x3]] when no row exchange happens (|x2| < |x0|): the four outputs are the entries
+   of the inverse and carry their partial derivatives *)
+Theorem matrix_inverse_2x2_no_pivot_change : forall k o x, inv2_dom x ->
+  exists J, runJ (p_inv M4.InvPlain 2) k o x (all_vars 4) = Some J /\
+            runR (p_inv M4.InvPlain 2) x (all_vars 4) = Some (map jv J) /\
+            (let D := x 0%nat * x 3%nat - x 1%nat * x 2%nat in
+             map jv J = [x 3%nat / D; - x 1%nat / D; - x 2%nat / D; x 0%nat / D]) /\
+            forall q, holds k o (outR (p_inv M4.InvPlain 2) (all_vars 4) q) x (nth q J (jconst 0)).
+Proof. exact inv2_jets. Qed.
+Example inv2_dom_nontrivial : inv2_dom (fun i => nth i [4; 1; 2; 3] 0).
+Proof. exact inv2_dom_example. Qed.
+
 (* the hypotheses of the general theorems are satisfiable by non-trivial instances *)
 Example hyps_nontrivial_det3 : forall x, run_safe (p_det 3) (all_vars 9) x /\ stable (p_det 3) (all_vars 9) x.
 Proof. intro x. split; [apply det3_safe|apply stable_det]. Qed.
@@ -152,6 +165,13 @@ Theorem fast_generic_carriers_agree : forall x : float,
   M5.gsqrt M5.NumXFfast x = M5.gsqrt NumXFg x.
 Proof. exact fast_generic_sqrt. Qed.
 
+(* known finding F-GJ-SINGULAR-PANIC: the two paths do NOT agree in the outcome kind on a singular system
+   (Float64: error, generic: panic) - exhibited by the C04 model on binary64 *)
+Theorem fast_generic_singular_outcome_refuted :
+  M4.gj_run NumF true false 1 [true] (M4.mkSt [[0%float]] [[1%float]] [1%float]) = M4.ErrSingular /\
+  M4.gj_run NumF false false 1 [true] (M4.mkSt [[0%float]] [[1%float]] [1%float]) = M4.PanicSingular.
+Proof. exact gj_singular_refuted. Qed.
+
 (* (5) Jacobian / Hessian helpers: entries are the partial derivatives (for f given by expressions) *)
 Theorem jacobian_entries : forall (es : list expr) (xs : list R) i j,
   let k := length xs in let x := fun q => nth q xs 0 in
@@ -183,8 +203,8 @@ Theorem forcepd_excluded : forall x bf dl a, exists E, runE (p_fpd 1) x [(None, 
 Proof. exact fpd1_lossy. Qed.
 
 (* Not proved (stated for the record):
-   gauss_jordan_no_pivot_change_2x2_partial - run_safe/stable of the 2x2 inverse under "no pivot change"
-     are not discharged in Coq (the general theorem all_routines_derivatives covers the routine under
-     those two hypotheses; the bit-exact derivative replay and the closed-formula certificates tie it).
+   gauss_jordan_3x3_partial - run_safe/stable of the 3x3 inverse are not discharged in Coq (the 2x2 case is:
+     matrix_inverse_2x2_no_pivot_change); the general theorem all_routines_derivatives covers every size under
+     those two hypotheses, and the bit-exact derivative replay and the closed-formula certificates tie it.
    logdet_general_n_partial - d log det A = tr(A^-1 dA) for general n (Jacobi's formula) is certified per
      run in exact rational arithmetic from Go's output (Corr.KF kinds 1, 2), not proved. *)
